@@ -108,6 +108,12 @@ func c17Forwarder(c *Check) {
 	}
 	relayReturns(c, P, fn, append(append([]Edge{}, pubOK...), ackTrue...), pubFail,
 		"nil (⇒ Ack) is returned only after the destination accepted the message, or for a non-envelope when AckWhenCannotUnwrap")
+	for i, r := range Returns(fn) {
+		if RetNil(r, len(r.Results)-1) {
+			continue
+		}
+		c.Report(GuardedBy(fn, r, append(append([]Edge{}, uwFail...), pubFail...)), P+".O1", "RELAY-FAILS-ONLY-ON-FAULT", fn, r.Pos(), fmt.Sprintf("return#%d", i), "the forwarder refuses a message (⇒ Nack, redelivery) only when it could not be unwrapped or the destination Publish failed — not because of what the envelope says (e.g. its destination topic)")
+	}
 	for _, e := range uwFail {
 		re := ReachEdge(e, nil)
 		bad := false
@@ -584,6 +590,34 @@ func c17FanIn(c *Check) {
 // IsFullRangeIndex: idx is the induction variable of a `range` over slice s:
 // phi(-1, idx+1) compared with len(s).
 func IsFullRangeIndex(idx ssa.Value, s ssa.Value) bool {
+	// the explicit form `for i := 0; i < len(s); i++`: idx = phi(0, idx+1), tested `idx < len(s)` before every use
+	if phi, isPhi := idx.(*ssa.Phi); isPhi {
+		hasZero, hasStep := false, false
+		for _, e := range phi.Edges {
+			if n, ok := IntConst(e); ok && n == 0 {
+				hasZero = true
+			} else if inc, ok := e.(*ssa.BinOp); ok && inc.Op == token.ADD && inc.X == ssa.Value(phi) {
+				if n, ok := IntConst(inc.Y); ok && n == 1 {
+					hasStep = true
+				} else {
+					return false
+				}
+			} else {
+				return false
+			}
+		}
+		if !hasZero || !hasStep {
+			return false
+		}
+		for _, ref := range *phi.Referrers() {
+			if cmp, ok := ref.(*ssa.BinOp); ok && cmp.Op == token.LSS && cmp.X == ssa.Value(phi) && cmp.Block() == phi.Block() {
+				if args, ok := IsBuiltinCall(cmp.Y, "len"); ok && len(args) == 1 && sameValue(args[0], s) {
+					return true
+				}
+			}
+		}
+		return false
+	}
 	bo, ok := idx.(*ssa.BinOp)
 	if !ok || bo.Op != token.ADD {
 		return false
@@ -740,6 +774,16 @@ func c17UnwrapValidates(c *Check, P string, U *ssa.Function) {
 		k := fmt.Sprintf("unwrap return#%d", i)
 		c.Report(len(decOK) > 0 && GuardedBy(U, r, decOK), P+".O1", "UNWRAP-SUCCESS-ONLY-IF-DECODED", U, r.Pos(), k, "unwrap succeeds only if the payload decoded as an envelope")
 		c.Report(len(guards) > 0 && GuardedBy(U, r, guards), P+".O1", "UNWRAP-SUCCESS-ONLY-IF-VALID", U, r.Pos(), k, "unwrap succeeds only for an envelope that passed validation (a payload without destination topic is not a valid envelope and is never forwarded)")
+	}
+	// … and fails only if it did not decode or did not pass validation (what the decoder accepts is an envelope)
+	_, decFail := NilEdges(U, ResultOfAny(dec, 0))
+	_, valFail := NilEdges(U, ResultOfAny(vals, 0))
+	failG := append(append([]Edge{}, decFail...), valFail...)
+	for i, r := range Returns(U) {
+		if RetNil(r, len(r.Results)-1) {
+			continue
+		}
+		c.Report(len(failG) > 0 && GuardedBy(U, r, failG), P+".O1", "UNWRAP-FAILS-ONLY-IF-NOT-AN-ENVELOPE", U, r.Pos(), fmt.Sprintf("unwrap return#%d", i), "unwrap reports an error only on the decoder's or the validation's error edge (no extra pre-filter on the payload: valid envelopes would be acked-and-lost or nacked forever)")
 	}
 	for _, v := range vals {
 		V := CalleeFn(v.Common())
